@@ -73,9 +73,15 @@ def run(prop, tier):
     proof = C.proof_step(["Props/C07.v"])
     proof["trusted"] = [
         "model Audio/Energy.v + Audio/Pcm.v written by hand from util.py (AudioEnergyValidator, make_channel_selector) and signal.py (to_array, calculate_energy); the binary64/libm log10 computation is NOT modelled: it is replaced by an exact integer decision proved equivalent to the real-number statement (Coq Reals), and compared outside a measured float zone",
+        "the dispatch of make_channel_selector on `selected` (None / any, mix / avg / average, an index with its normalisation and range check, anything else) is executed symbolically from /repo's util.py on every run and proved equal to Audio/Selector.v resolve_selector for every channel count and index (harness/py2coq/selector.py, TieSelector.v); C07_decision_via_selector links it to the decision",
         "Coq standard-library real-number axioms (named under Print Assumptions) for C07_spec/C07_silence/C07_floor_irrelevant",
         "extraction (ExtrOcamlBasic only) + OCaml driver, cross-checked by vm_compute on a sample; numpy 2.x",
     ]
+    from ..py2coq import misctie
+    tie = misctie.tie_group("selector")
+    proof["tie_obligations"] = tie["obligations"]
+    if not tie["ok"]:
+        proof["undischarged"] = tie["obligations"]
     C.import_auditok()
     from auditok.util import AudioEnergyValidator
     quick = tier == "quick"
@@ -226,9 +232,12 @@ def run(prop, tier):
                          "rule": "seeded windows of 1..%d samples, widths 1/2/4 with extremes, 1-4 channels, all selector spellings (valid, negative, out of range, unknown), thresholds integers -210..200 and halves/quarters; exact ties at even powers of ten with one-LSB neighbours; monotonicity sweeps; non-trivial = distinct window judged active by the model; float-zone cases (exact mean square within relative 2^-35 of the boundary without being a float-exact tie) are generated but not compared" % (24 if quick else 64),
                          "samples": [{"case": meta[5], "model": outs[5]}, {"case": meta[-1], "model": outs[-1]}],
                          "vm_compute_crosschecked": vm, "compared": compared, "correspondence_mismatches": mism, "zones": zcount,
-                         "error_results": sum(1 for o in outs if o[0] == 1)})
+                         "error_results": sum(1 for o in outs if o[0] == 1), "tie_translation": tie["detail"][:300]})
     if viol:
         res.add_violation(viol["what"], viol)
+    elif not tie["ok"] and first is None:
+        res.tie_undischarged("translation tie broken: " + tie["detail"][:700] + " -- the exact decision agrees with the validator on every compared window and the oracle found no failing input",
+                             {"no_longer_checks": "TieSelector.v tie_selector", "tie_detail": tie["detail"]})
     elif first is not None:
         m, i, o, z = first
         act = "active" if o == [0, 1] else ("inactive" if o == [0, 0] else "ValueError")
